@@ -357,6 +357,73 @@ func buildC07(tier string) *core.Plan {
 			}
 		}}
 
+	// multi-document streams: a $required brought into several documents by one layer is satisfied per document
+	type mdCase struct {
+		name   string
+		middle map[string]any
+		over   func(id int) map[string]any
+	}
+	mdCases := []mdCase{
+		{"map-over-scalar", map[string]any{"$match": map[string]any{}, "s": map[string]any{"n": "$required", "k": 1}},
+			func(id int) map[string]any { return map[string]any{"$match": map[string]any{"id": id}, "s": map[string]any{"n": 7}} }},
+		{"appended-list-entry", map[string]any{"$match": map[string]any{}, "l": []any{map[string]any{"n": "$required", "k": 1}}},
+			func(id int) map[string]any {
+				return map[string]any{"$match": map[string]any{"id": id}, "l": []any{map[string]any{"$match": map[string]any{"k": 1}, "n": 7}}}
+			}},
+		{"new-key", map[string]any{"$match": map[string]any{}, "fresh": map[string]any{"n": "$required"}},
+			func(id int) map[string]any { return map[string]any{"$match": map[string]any{"id": id}, "fresh": map[string]any{"n": 7}} }},
+		{"replace-true", map[string]any{"$match": map[string]any{}, "m": map[string]any{"$replace": true, "n": "$required"}},
+			func(id int) map[string]any { return map[string]any{"$match": map[string]any{"id": id}, "m": map[string]any{"n": 7}} }},
+	}
+	multiDoc := core.Space{Name: "required-across-documents", N: int64(len(mdCases) * 4), Chunk: 1,
+		Desc: func(i int64) any { return map[string]any{"case": mdCases[i/4].name, "overridden_documents_mask": i % 4} },
+		Run: func(c *core.Ctx, i int64) {
+			mc := mdCases[i/4]
+			mask := int(i % 4)
+			docs := []any{
+				map[string]any{"id": 1, "s": 0, "l": []any{0}, "m": map[string]any{"old": 1}},
+				map[string]any{"id": 2, "s": 0, "l": []any{0}, "m": map[string]any{"old": 1}},
+			}
+			p := newParser()
+			c.Eval()
+			for k, d := range docs {
+				if err := p.MergeDocument(newDoc(fmt.Sprintf("b%d", k), d)); err != nil {
+					return
+				}
+			}
+			if err := p.MergeDocument(newDoc("mid", mc.middle)); err != nil {
+				c.Fail("required-across-documents", "middle-layer-rejected", mc.name, errStr(err))
+				return
+			}
+			for id := 1; id <= 2; id++ {
+				if mask&(1<<(id-1)) != 0 {
+					if err := p.MergeDocument(newDoc(fmt.Sprintf("o%d", id), mc.over(id))); err != nil {
+						c.Fail("required-across-documents", "override-rejected", fmt.Sprintf("%s mask=%d", mc.name, mask), errStr(err))
+						return
+					}
+				}
+			}
+			c.Trans(6)
+			outs, err := p.OutputDocuments()
+			c.Validated()
+			c.Nontrivial()
+			wit := fmt.Sprintf("%s overridden-mask=%d", mc.name, mask)
+			if mask != 3 {
+				if err == nil {
+					c.Outcome("REQUIRED-NOT-ENFORCED")
+					c.Fail("required-across-documents", "override-in-one-document-satisfies-another", wit, map[string]any{"output": outs})
+					return
+				}
+				c.Outcome("unsatisfied-refused")
+				return
+			}
+			if err != nil {
+				c.Fail("required-across-documents", "satisfied-required-refused", wit, errStr(err))
+				return
+			}
+			c07Invariant(c, "no-stray-marker-multidoc", wit, outs, err)
+		}}
+
 	// YAML anchors: a marker behind an anchor that is aliased into a visible place
 	yamlMarkers := []string{"$required", "$foo", "$delete", "{$match: 1}", "{$output: x}", "[$replace]"}
 	tmpls := []string{
@@ -387,7 +454,7 @@ func buildC07(tier string) *core.Plan {
 		}}
 
 	return &core.Plan{
-		Spaces: []core.Space{inject, required, yamlSpace},
+		Spaces: []core.Space{inject, required, multiDoc, yamlSpace},
 		Rule: "every single injection of every marker (15 string markers as value/entry/key, 10 directive keys x 5 argument kinds with and without an extra key) into every base tree, " +
 			"each evaluated plain, under $output: false, re-selected by $output: true below a hidden parent, inside $encode: json and as a lower layer; every lower layer with $required at any positions x every subset overridden",
 		Assumptions: []string{"invariant: a successful output contains no key or string equal to $required or matching ^\\$\\p{Ll} (inputs contain no $$)",
